@@ -85,16 +85,16 @@ func isolated(c *Ctx, op string, fields map[string]any, limit time.Duration) (ou
 		}
 		_ = w.cmd.Wait()
 		theWorker = nil
-		return nil, true, false, tail(w.stderr.String(), 3000)
+		return nil, true, false, wtail(w.stderr.String(), 3000)
 	case <-time.After(limit):
 		_ = w.cmd.Process.Kill()
 		_ = w.cmd.Wait()
 		theWorker = nil
-		return nil, false, true, tail(w.stderr.String(), 3000)
+		return nil, false, true, wtail(w.stderr.String(), 3000)
 	}
 }
 
-func tail(s string, n int) string {
+func wtail(s string, n int) string {
 	if len(s) > n {
 		return s[:n]
 	}
